@@ -100,6 +100,19 @@ def logic_case(res, case):
         if (False, False) in outs and not np.array_equal(outs[(reuse, strip)][:, :sim.mdim], outs[(False, False)][:, :sim.mdim]):
             res.violation(key + '/differs', case, f'LogicSim m={m} results with c_reuse={reuse} strip_forks={strip} differ from the plain configuration {nl}')
         res.sig(('logic', case['nl'], m, reuse, strip))
+    # two simulator objects alive at the same time, used in an interleaved fashion: no state is shared between objects
+    try:
+        a = LogicSim(c, sims=n, m=m)
+        bsim = LogicSim(c, sims=n, m=m, c_reuse=True)
+        for k, pos in enumerate(ipos + spos):
+            lsim.assign_codes(a, pos, vals[k]); lsim.assign_codes(bsim, pos, vals[(k + 1) % len(vals)][::-1].copy() if len(vals) else vals[k])
+        a.s_to_c(); bsim.s_to_c(); a.c_prop(); bsim.c_prop(); bsim.c_to_s(); a.c_to_s()
+        got = np.array(a.s[1][[*opos, *spos]], copy=True) if (opos + spos) else np.zeros(0)
+        if (False, False) in outs and not np.array_equal(got[:, :a.mdim], outs[(False, False)][:, :a.mdim]):
+            res.violation(f'C06/logic/{common.h64(case["nl"]):016x}/s{case["style"]}/m{m}/two-objects', case, f'LogicSim m={m}: results change when a second simulator object is used in between {nl}')
+        res.count('logic_two_objects')
+    except Exception as ex:
+        res.violation(f'C06/logic/{common.h64(case["nl"]):016x}/s{case["style"]}/m{m}/two-objects-exception', case, traceback.format_exc()[-900:])
     res.count('logic_cases')
 
 
@@ -209,6 +222,15 @@ def wave_case(res, case):
                 sim.s[0, pos, :n] = init[kk][perm]; sim.s[1, pos, :n] = tt[kk][perm]; sim.s[2, pos, :n] = fin[kk][perm]
             sim.s_to_c(); sim.c_prop(seed=0); sim.c_to_s()
         compare(f'reuse-g{int(cuda)}', sim)   # memory behind the terminators may hold stale entries of the earlier run: ports only
+    # two simulator objects alive at the same time (CPU and GPU path, other stimulus, memory reuse), used interleaved
+    for cuda in (False, True):
+        a = W.make_sim(c, delays, n, caps=caps, cuda=cuda)
+        o = W.make_sim(c, delays * 2, n, caps=caps, cuda=not cuda, reuse=True)
+        for kk, pos in enumerate(ipos + spos):
+            a.s[0, pos, :n] = init[kk]; a.s[1, pos, :n] = tt[kk]; a.s[2, pos, :n] = fin[kk]
+            o.s[0, pos, :n] = fin[kk][::-1]; o.s[1, pos, :n] = tt[kk] + 0.5; o.s[2, pos, :n] = init[kk][::-1]
+        a.s_to_c(); o.s_to_c(); a.c_prop(seed=0); o.c_prop(seed=0); o.c_to_s(); a.c_to_s()
+        compare(f'twoobjects-g{int(cuda)}', a, full_c=True)
     # a restricted propagation followed by a full one on the same object
     for cuda in (False, True):
         sim = W.make_sim(c, delays, n, caps=caps, cuda=cuda)
@@ -297,7 +319,7 @@ def wave_case(res, case):
 
 
 def finish(agg, tier):
-    need = ['cfg_opt', 'cfg_alloc', 'cfg_perm', 'cfg_sims', 'cfg_dataset', 'cfg_dataset_mixed', 'cfg_abuf', 'cfg_reuse', 'logic_cases']
+    need = ['cfg_opt', 'cfg_alloc', 'cfg_perm', 'cfg_sims', 'cfg_dataset', 'cfg_dataset_mixed', 'cfg_twoobjects', 'logic_two_objects', 'cfg_abuf', 'cfg_reuse', 'logic_cases']
     missing = [k for k in need if not agg.counters.get(k)]
     if missing: raise common.HarnessError(f'vacuity guard: {missing} zero')
     return {}
